@@ -345,6 +345,10 @@ struct Case {
     /// resumed - the waiter path of region initialisation; otherwise such reads are skipped
     #[serde(default)]
     waiters: bool,
+    /// the family's first object is created on a thread pinned to this region (index into
+    /// `region_ids`, taken modulo their number) instead of on an unpinned thread
+    #[serde(default)]
+    creator_region: Option<u16>,
 }
 
 fn op_strategy(write_weight: u32) -> impl Strategy<Value = Op> {
@@ -398,14 +402,16 @@ fn case_strategy() -> impl Strategy<Value = Case> {
                 0..5,
             ),
             prop::bool::weighted(0.6),
+            prop::option::weighted(0.5, any::<u16>()),
         )
-            .prop_map(|(region_ids, procs, threads, steps, gates, waiters)| Case {
+            .prop_map(|(region_ids, procs, threads, steps, gates, waiters, creator_region)| Case {
                 region_ids,
                 procs,
                 threads,
                 steps,
                 gates,
                 waiters,
+                creator_region,
             })
     })
 }
@@ -1159,6 +1165,7 @@ impl Run<'_> {
 }
 
 fn classify_case(case: &Case, ctx: &mut Ctx) {
+    ctx.classify(if case.creator_region.is_some() { "family-created-on-a-pinned-thread" } else { "family-created-on-an-unpinned-thread" });
     ctx.classify(match case.region_ids.len() {
         1 => "regions:1",
         2 => "regions:2",
@@ -1228,7 +1235,22 @@ fn exec_case<K: Kind>(case: &Case, pool_slot: &mut Option<Pool>) -> ChildReply {
         }
     }
     let hw = SystemHardware::fake(b);
-    let handles: Handles<K> = Handles::new(hw.clone());
+    let handles: Handles<K> = match case.creator_region {
+        None => Handles::new(hw.clone()),
+        Some(raw) => {
+            // the first object of the family comes from a thread that is pinned to one region
+            let x = pick_index(raw, nregions);
+            let start: u32 = case.procs[..x].iter().map(|c| u32::from(*c)).sum();
+            let ids: Vec<u32> = (start..start + u32::from(case.procs[x])).collect();
+            let hw2 = hw.clone();
+            std::thread::spawn(move || {
+                pin_to(&hw2, &ids);
+                Handles::<K>::new(hw2)
+            })
+            .join()
+            .expect("harness: creating the family on a pinned thread")
+        }
+    };
 
     if pool_slot.as_ref().is_some_and(|p| p.uses >= POOL_USES) {
         if let Some(p) = pool_slot.take() {
